@@ -93,7 +93,14 @@ def _same_role(a, b):
         return True
     def rx(x):
         return re.compile('^' + re.escape(x).replace('\\$', r'[^\[\]]+') + '$')
-    return bool(rx(a).match(b) or rx(b).match(a))
+    if rx(a).match(b) or rx(b).match(a):
+        return True
+    # one side reaches the record through a local pointer (`m=calloc(..); ci->mode_param[i]=m; m->blockflag=read()`): its path
+    # is the bare field; the field itself must still be the same one
+    for x, y in ((a, b), (b, a)):
+        if x.count('.') == 1 and '[' not in x and y.endswith(x) and y != x:
+            return True
+    return False
 
 
 def role_compat(w, r):
